@@ -88,7 +88,28 @@ def run(ck):
                   "Mgr::Forwarder::sendError": "generated", "MimeIcon::load": "icon file loaded whole", "clientReplyContext::processMiss": "generated redirect",
                   "clientReplyContext::purgeDoPurge": "generated", "clientReplyContext::sendNotModified": "generated 304", "internalStart": "generated", "netdbBinaryExchange": "generated",
                   "statObjects": "generated", "urnHandleReply": "generated"}, min_callers=5, kinds=("call",), why="(a new producer can complete a store entry)")
-    ers = facts.fn("ClientHttpRequest::endRequestSatisfaction") if False else None
+    ck.rule("R3c verdict is per attempt: whenever FwdState starts another forwarding attempt for the same entry (FwdState::complete with reforward() true, where the "
+            "stored reply is discarded by entry->reset()), storedWholeReply_ is cleared on every path before the next attempt (useDestinations()) is started, so that a "
+            "'whole' verdict about a discarded 502/504 cannot complete the retry's truncated reply; every StoreEntry::reset() call in FwdState passes that clearing")
+    cpl = facts.fn("FwdState::complete")
+    clear = ev_assign("FwdState::storedWholeReply_", E.M(lambda t: E.strip(t).get("k") == "null" or E.const(t) == 0, "nullptr"))
+    ck.require_response("R3c.reforward-clears-verdict", cpl, E.m_calls("FwdState::reforward"), True, clear, "storedWholeReply_ = nullptr",
+                        until=ev_call("FwdState::useDestinations"), term_kinds=("IfStmt",),
+                        why="(a retried transaction would inherit the previous attempt's 'stored whole' verdict and present a truncated chunked reply as complete)")
+    nreset = 0
+    is_reset = ev_call("StoreEntry::reset")
+    for f in facts.all_fns(lambda f: f.name.startswith("FwdState::")):
+        if not any(is_reset(ev) for b in f.blocks.values() for ev in b["ev"]):
+            continue
+        nreset += 1
+        fl2 = ck.flow(f, markers={"reset": is_reset, "cleared": clear}, track_markers=["reset", "cleared"])
+        bad = [st for st in fl2.find(ev_exit(("ret", "fall"))) if st.env.get("#reset") == 1 and st.env.get("#cleared") != 1]
+        if not bad:
+            ck.ok("R3c.reset-clears-verdict", f.where(), "%s: every path through entry->reset() also clears storedWholeReply_" % f.name)
+        for st in bad[:1]:
+            ck.violation("R3c.reset-clears-verdict", "R3c|%s|reset-without-clear" % f.name, st.where(),
+                         "%s discards the stored reply (entry->reset()) on a path that keeps the 'stored whole reply' verdict of the discarded reply" % f.name, fl2.witness(st))
+    ck.need(nreset >= 1, "C01: FwdState no longer calls StoreEntry::reset()")
     ck.rule("R4 clientReplyContext::replyStatus: STREAM_COMPLETE only with the entry not ABORTED, not ENTRY_BAD_LENGTH, checkTransferDone() non-zero and "
             "(no known body size | gotEnough()); checkTransferDone returns 0 while a chunked reply has not sent its last-chunk")
     rs = facts.fn("clientReplyContext::replyStatus")
